@@ -225,16 +225,23 @@ func arrayExecMerge(ar *Array, values []r.Element) (r.Element, error) {
 		return nil, err
 	}
 
+	// like 新增 / 前增 / 后增, store copies of the items: the merged list must not share
+	// nested lists with the arguments (or, through 【甲】, contain itself - displaying such a
+	// list recurses until the Go stack overflows). The arguments are read before the receiver
+	// changes, so a list can be merged with itself.
 	var result []r.Element
 	result = append(result, ar.value...)
 	for _, v := range values {
-		varr := v.(*Array).value
-		result = append(result, varr...)
+		for _, item := range v.(*Array).value {
+			result = append(result, DuplicateValue(item))
+		}
 	}
 	// update new array
 	ar.value = result
 
-	return NewArray(result), nil
+	// the receiver itself is the result, as for the other methods that extend a list (a second
+	// Array over the same backing slice would be neither a copy nor the same list)
+	return ar, nil
 }
 
 func arrayExecContains(ar *Array, values []r.Element) (r.Element, error) {
